@@ -57,6 +57,12 @@ d) incrementality.go ruleHash runtime block: drop `h.Write([]byte(target.GetTest
      -> fact ruleHashRuntimeWrites lacks GetTestCommand: C11_facts_ok fails; oracle: a changed test_cmd reuses the old PASS.
 e) HARMLESS: rename the local `hash` to `rtHash` throughout test(), swap the two independent filepath.Join statements
      -> facts identical (roles, not names), 0 disagreements, exit 0.
+Results through ./check: a) exit 1, VIOLATION failing-result-reused / failing-test-not-executed-again / stale-result-despite-distinct-
+runtime-hash with replay .ops, obligations 19/21; b) exit 1, VIOLATION stale-result-despite-distinct-runtime-hash (replay: edit of a data
+file after a pass, still [cached]), obligations 19/22, model with the mutated facts agrees with the mutated code (0 disagreements);
+c) same class, 19/22; d) same class (changed test_cmd reuses the PASS); e) exit 0, 23/23, 0 disagreements.
+Infrastructure: on a machine with load > 100 a plz invocation can time out or fail to start; such a history is dropped and counted
+(history-dropped-infrastructure-failure; more than half dropped is itself reported) instead of being mistaken for a finding.
 Each of a-d was also confirmed standalone: mutant plz binary + harness (generated quick tier, seed 1) reports the classes above
 while the unmutated binary reports only the known classes; the extractor diff is exactly the one fact named.
 """
